@@ -46,7 +46,7 @@ unchanged tree, showing the property being violated at the level of observable b
   interleaving / sequence...", "files_changed": [...], "demo_files": [{{"file": "out/<name>", "place_at": "<repo-relative path>"}}],
   "demo_cmd": "<go test command run from the repo root>", "existing_tests_run": ["<commands you ran and their result>"]}}
 
-Verify all of it yourself before finishing: demo passes on the clean tree (`git stash` or a second checkout), demo fails with the patch,
+Verify all of it yourself before finishing: demo passes on the clean tree (use `git diff > out/patch.diff && git apply -R out/patch.diff` to get the clean tree and `git apply out/patch.diff` to come back — NEVER use `git stash`: the stash is shared between all worktrees of this repository and other people are using it), demo fails with the patch,
 the existing tests you ran pass with the patch. Leave the worktree with your change applied. Your final message: a 10-line summary.
 """)
     print(d)
